@@ -795,6 +795,10 @@ func setAttribute(attrs map[string]string, name, attrType, value string) error {
 '''
 _MKMAP = '\tattrKeyValue := make(map[string]string)\n'
 
+def _collector(fn, call=None):
+    # body edits first: the helper text contains the loop text that is cut out of the parser
+    return [(P, _MKMAP, ''), (P, _RDNLOOP, call or _COLLECT_CALL), (P, _DOC, fn + _DOC)]
+
 def _cut(fn, body_old, body_new, *subs):
     new = body_new
     for a, b in subs:
@@ -816,20 +820,19 @@ VARIANTS += [
  dict(name='alias-function-on-value', expect='flagged(parser/stores-type-value)',
       edits=_cut(_CANON_FN, _ATTRBODY, _CANON_BODY, ('canonicalAttributeType(attribute.Type)', 'canonicalAttributeType(attribute.Value)'))),
  # -- collector that makes and returns the map
- dict(name='benign-collector-helper', expect='silent',
-      edits=[(P, _MKMAP, ''), (P, _RDNLOOP, _COLLECT_CALL), (P, _DOC, _COLLECT_FN + _DOC)]),
+ dict(name='benign-collector-helper', expect='silent', edits=_collector(_COLLECT_FN)),
  dict(name='collector-error-ignored', expect='flagged(parser/)',
-      edits=[(P, _DOC, _sub(_COLLECT_FN, '\t\t\t} else {\n\t\t\t\treturn nil, ' + _DUPERR, '\t\t\t} else {\n\t\t\t\treturn attrKeyValue, ' + _DUPERR) + _DOC), (P, _MKMAP, ''),
-             (P, _RDNLOOP, '\tattrKeyValue, _ := collectRDNAttributes(name, dn)\n')]),
+      edits=_collector(_sub(_COLLECT_FN, '\t\t\t} else {\n\t\t\t\treturn nil, ' + _DUPERR, '\t\t\t} else {\n\t\t\t\treturn attrKeyValue, ' + _DUPERR),
+                       '\tattrKeyValue, _ := collectRDNAttributes(name, dn)\n')),
  dict(name='collector-duplicate-overwrites', expect='flagged(parser/duplicate)',
-      edits=[(P, _DOC, _sub(_COLLECT_FN, '\t\t\tif attrKeyValue[attribute.Type] == "" {\n\t\t\t\tattrKeyValue[attribute.Type] = attribute.Value\n\t\t\t} else {\n\t\t\t\treturn nil, ' + _DUPERR + '\n\t\t\t}\n',
-                                '\t\t\tattrKeyValue[attribute.Type] = attribute.Value\n') + _DOC), (P, _MKMAP, ''), (P, _RDNLOOP, _COLLECT_CALL)]),
+      edits=_collector(_sub(_COLLECT_FN, '\t\t\tif attrKeyValue[attribute.Type] == "" {\n\t\t\t\tattrKeyValue[attribute.Type] = attribute.Value\n\t\t\t} else {\n\t\t\t\treturn nil, ' + _DUPERR + '\n\t\t\t}\n',
+                            '\t\t\tattrKeyValue[attribute.Type] = attribute.Value\n'))),
  dict(name='collector-stops-at-first-rdn', expect='flagged(parser/every-attribute-read)',
-      edits=[(P, _DOC, _sub(_COLLECT_FN, '\t\t\t} else {\n\t\t\t\treturn nil, ' + _DUPERR + '\n\t\t\t}\n\t\t}\n', '\t\t\t} else {\n\t\t\t\treturn nil, ' + _DUPERR + '\n\t\t\t}\n\t\t}\n\t\tif len(attrKeyValue) >= 3 {\n\t\t\tbreak\n\t\t}\n') + _DOC),
-             (P, _MKMAP, ''), (P, _RDNLOOP, _COLLECT_CALL)]),
+      edits=_collector(_sub(_COLLECT_FN, '\t\t\t} else {\n\t\t\t\treturn nil, ' + _DUPERR + '\n\t\t\t}\n\t\t}\n', '\t\t\t} else {\n\t\t\t\treturn nil, ' + _DUPERR + '\n\t\t\t}\n\t\t}\n\t\tif len(attrKeyValue) >= 3 {\n\t\t\tbreak\n\t\t}\n'))),
  dict(name='collector-shared-map', expect='flagged(parser/result-is-fresh-map)',
-      edits=[(P, _DOC, 'var lastAttributes = map[string]string{}\n\n' + _sub(_COLLECT_FN, '\tattrKeyValue := make(map[string]string, len(dn.RDNs))\n', '\tattrKeyValue := lastAttributes\n') + _DOC),
-             (P, _MKMAP, ''), (P, _RDNLOOP, _COLLECT_CALL)]),
+      edits=_collector('var lastAttributes = map[string]string{}\n\n' + _sub(_COLLECT_FN, '\tattrKeyValue := make(map[string]string, len(dn.RDNs))\n', '\tattrKeyValue := lastAttributes\n'))),
+ dict(name='collector-multi-valued-allowed', expect='flagged(parser/multi-valued-rdn)',
+      edits=_collector(_sub(_COLLECT_FN, 'if len(rdn.Attributes) > 1 {', 'if len(rdn.Attributes) > 2 {'))),
  # -- helper per RDN
  dict(name='benign-per-rdn-helper', expect='silent', edits=[(P, _DOC, _PERRDN_FN + _DOC), (P, _RDNLOOP, _PERRDN_LOOP)]),
  dict(name='per-rdn-helper-error-ignored', expect='flagged(parser/)',
